@@ -39,7 +39,8 @@ type Program struct {
 	Inits  map[*ssa.Function]bool // package initialisers and what only they reach
 	Overlay map[string][]byte
 	Drifted []string // reference functions dropped because they no longer type-check
-	specIndex map[string]bool
+	specIndex map[string]*ssa.Function
+	codeIndex map[string]*ssa.Function
 }
 
 func repoEnv() []string {
@@ -119,7 +120,7 @@ func (e *LoadError) Error() string { return e.Msg }
 // dropped one by one and reported as drifted.
 func LoadWithSpecs(repo, work string, overlay map[string][]byte) (*Program, []string, error) {
 	var drifted []string
-	for round := 0; round < 12; round++ {
+	for round := 0; round < 40; round++ {
 		prog, err := LoadProgram(repo, work, overlay)
 		if err == nil {
 			prog.Drifted = drifted
@@ -141,7 +142,9 @@ func LoadWithSpecs(repo, work string, overlay map[string][]byte) (*Program, []st
 				continue
 			}
 			overlay[file] = newContent
-			drifted = append(drifted, name)
+			if name != "import" {
+				drifted = append(drifted, name)
+			}
 			removed++
 		}
 		if removed == 0 {
@@ -185,7 +188,19 @@ func dropFuncAt(content []byte, line int) (string, []byte) {
 			}
 		} else if gd, ok := d.(*ast.GenDecl); ok {
 			if gd.Tok == token.IMPORT {
-				return "", content
+				// an import that became unused because functions were dropped: blank that line only
+				out := append([]byte{}, content...)
+				ln, off := 1, 0
+				for off < len(out) && ln < line {
+					if out[off] == '\n' {
+						ln++
+					}
+					off++
+				}
+				for i := off; i < len(out) && out[i] != '\n'; i++ {
+					out[i] = ' '
+				}
+				return "import", out
 			}
 			for _, sp := range gd.Specs {
 				if vs, ok := sp.(*ast.ValueSpec); ok && len(vs.Names) > 0 {
@@ -293,17 +308,57 @@ func LoadProgram(repo, work string, overlay map[string][]byte) (*Program, error)
 	return p, nil
 }
 
-// hasSpec: a reference implementation exists for the repository function with this key.
-func (p *Program) hasSpec(key string) bool {
+// normKey: function key modulo pointer/value receiver.
+func normKey(key string) string { return strings.Replace(key, "(*", "(", 1) }
+
+// specFor: the reference implementation of the repository function with this key (nil if none).
+func (p *Program) specFor(key string) *ssa.Function {
 	if p.specIndex == nil {
-		p.specIndex = map[string]bool{}
+		p.specIndex = map[string]*ssa.Function{}
 		for _, sf := range p.SpecFuncs {
-			if sf.Parent() == nil && sf.Synthetic == "" {
-				p.specIndex[strings.Replace(funcKey(sf), specPrefix, "", 1)] = true
+			if sf.Parent() == nil && sf.Synthetic == "" && strings.Contains(sf.Name(), specPrefix) {
+				p.specIndex[normKey(strings.Replace(funcKey(sf), specPrefix, "", 1))] = sf
 			}
 		}
 	}
-	return p.specIndex[key]
+	return p.specIndex[normKey(key)]
+}
+
+// codeFor: the repository function a reference implementation describes (nil if it no longer exists).
+func (p *Program) codeFor(spec *ssa.Function) *ssa.Function {
+	want := normKey(strings.Replace(funcKey(spec), specPrefix, "", 1))
+	if p.codeIndex == nil {
+		p.codeIndex = map[string]*ssa.Function{}
+		for _, f := range p.Funcs {
+			if f.Parent() == nil && f.Synthetic == "" {
+				p.codeIndex[normKey(funcKey(f))] = f
+			}
+		}
+	}
+	return p.codeIndex[want]
+}
+
+// sameInterface: identical parameter and result types (receivers compared modulo pointer).
+func sameInterface(a, b *ssa.Function) bool {
+	sa, sb := a.Signature, b.Signature
+	if (sa.Recv() == nil) != (sb.Recv() == nil) {
+		return false
+	}
+	if sa.Recv() != nil && !types.Identical(derefType(sa.Recv().Type()), derefType(sb.Recv().Type())) {
+		return false
+	}
+	return types.Identical(sa.Params(), sb.Params()) && types.Identical(sa.Results(), sb.Results()) && sa.Variadic() == sb.Variadic()
+}
+
+// paired: the function has a counterpart with the same interface on the other side of the comparison
+// (then calls to it are compared by identity, and the pair is an obligation of its own).
+func (p *Program) paired(f *ssa.Function) bool {
+	if p.isSpec(f) {
+		c := p.codeFor(f)
+		return c != nil && sameInterface(c, f)
+	}
+	sp := p.specFor(funcKey(f))
+	return sp != nil && sameInterface(f, sp)
 }
 
 // isSpec: the function (or its enclosing function) is defined in a spec overlay file.
